@@ -20,7 +20,7 @@ the name hashed with a source is its path relative to the task directory (`nameO
 point where the process is killed as chosen by `Env`, the hash `H` is uninterpreted
 (a parameter), time is a logical clock supplied by `Env.now`.
 
-`Cfg` selects, for the two places where the property (C12) demands something else than
+`Cfg` selects, for the three places where the property (C12) demands something else than
 the snapshot `ee97f41` does and the repair is a one-line patch, which behaviour is
 modelled: `Cfg.fixed` (what the driver runs, and what the patched tree does) or
 `Cfg.found` (the tree as found; used only to state the counterexamples).
@@ -39,10 +39,20 @@ abbrev FS := List (Path × File)
 inductive Method | checksum | timestamp | none
 deriving Repr, DecidableEq
 
-/-- a command: the files it writes when it succeeds -/
+/-- a command: the files it writes when it succeeds.  `need = some p` makes it a `task:` CALL of a
+helper task whose precondition is `test -f p` and whose single command is this one: when `p` does
+not exist the call FAILS BEFORE ANYTHING RUNS — also under `--dry`, where preconditions are still
+evaluated although no command is executed (the one way a dry body can fail). -/
 structure Cmd where
   writes : List (Path × Bytes)
+  need : Option Path
 deriving Repr, DecidableEq
+
+/-- the call's precondition does not hold in `fs` -/
+def Cmd.blocked (c : Cmd) (fs : FS) : Bool :=
+  match c.need with
+  | some p => !ahas fs p
+  | none => false
 
 structure Task where
   name : Bytes                 -- `t.Task` (with namespace prefix for included tasks)
@@ -66,10 +76,11 @@ deriving Repr, DecidableEq
 structure Cfg where
   listDry : Bool               -- `ToEditorOutput` passes `WithDry(true)`          (F7)
   dryMkdir : Bool              -- `RunTask` calls `mkdir` also in dry mode          (defect 16)
+  dryOnError : Bool            -- `statusOnError` removes the fingerprint also in dry mode (TS4)
 deriving Repr, DecidableEq
 
-def Cfg.fixed : Cfg := ⟨true, false⟩
-def Cfg.found : Cfg := ⟨false, true⟩
+def Cfg.fixed : Cfg := ⟨true, false, false⟩
+def Cfg.found : Cfg := ⟨false, true, true⟩
 
 /-- ghost: one entry per command-loop attempt -/
 structure Attempt where
@@ -162,20 +173,26 @@ def sumCheck (H : Bytes → Bytes) (pr : Proj) (t : Task) (dry : Bool) (s : Stat
 
 def maxOf (l : List Nat) : Nat := l.foldl Nat.max 0
 
-/-- `TimestampChecker.IsUpToDate`: the marker joins the generates if it exists, else is
-created (if not dry); no generates at all ⇒ `false`; any source newer than the newest
-generate ⇒ update; marker touched (if not dry). -/
+/-- `TimestampChecker.IsUpToDate` (as patched by TS1/TS2), in statement order: every non-negated
+`generates` entry must match an existing file (`gensOk`, as for checksum — computed, not yet
+returned); the marker joins the generates if it exists, else it is CREATED (if not dry, mtime =
+now) without joining them; nothing to compare with ⇒ `false` (the marker just created stays);
+`upToDate` = no source newer than the newest generate/marker AND the generates exist; the marker
+is TOUCHED only when not dry and NOT `upToDate` (the task is going to run).  A check that ends in
+"up to date" therefore leaves an existing marker exactly as it was. -/
 def tsCheck (t : Task) (dry : Bool) (now : Nat) (s : State) : State × Bool :=
   let srcs := srcsNow t s.files
   let gens := globs (nowPats t.generates s.files)
+  let ge := gensOk t s.files
   let mk := aget s.marks (tsKey t)
   let gts := gens.map (mtimeOf s.files) ++ (match mk with | some m => [m] | none => [])
   let s1 := if dry then s else if mk.isSome then s else { s with marks := aset s.marks (tsKey t) now }
   if gts.isEmpty then (s1, false)
   else
     let upd := srcs.any (fun p => decide (maxOf gts < mtimeOf s.files p))
-    let s2 := if dry then s1 else { s1 with marks := aset s1.marks (tsKey t) now }
-    (s2, !upd)
+    let up := !upd && ge
+    let s2 := if dry || up then s1 else { s1 with marks := aset s1.marks (tsKey t) now }
+    (s2, up)
 
 def srcCheck (H : Bytes → Bytes) (pr : Proj) (t : Task) (dry : Bool) (now : Nat) (s : State) : State × Bool :=
   match t.method with
@@ -191,11 +208,13 @@ def isUpToDate (H : Bytes → Bytes) (pr : Proj) (t : Task) (dry : Bool) (now : 
   let r := if soSet then srcCheck H pr t dry now s else (s, false)
   (r.1, if stSet && soSet then a && r.2 else if stSet then a else if soSet then r.2 else false)
 
-/-- `SourcesCheckable.OnError` through `Executor.statusOnError` -/
+/-- `SourcesCheckable.OnError` through `Executor.statusOnError`: the checksum file / (since TS3) the
+timestamp marker of a task with sources is removed -/
 def onError (t : Task) (s : State) : State :=
   match t.method with
   | .checksum => if t.sources.isEmpty then s else { s with sums := adel s.sums (sumKey t) }
-  | _ => s
+  | .timestamp => if t.sources.isEmpty then s else { s with marks := adel s.marks (tsKey t) }
+  | .none => s
 
 /-! ### one invocation -/
 
@@ -232,7 +251,8 @@ def applyWrites (fs : FS) (ws : List (Path × Bytes)) (now : Nat) : FS :=
 def cmdLoop (e : Env) : List Cmd → Nat → FS → List Nat → FS × List Nat × LoopEnd
   | [], _, fs, ran => (fs, ran, .done)
   | c :: cs, k, fs, ran =>
-    if e.killAt = some k then (fs, ran, .killed)
+    if c.blocked fs then (fs, ran, .failed)
+    else if e.killAt = some k then (fs, ran, .killed)
     else if e.failAt = some k then (fs, ran ++ [k], .failed)
     else cmdLoop e cs (k + 1) (applyWrites fs c.writes e.now) (ran ++ [k])
 
@@ -242,13 +262,20 @@ def mkdirTask (t : Task) (s : State) : State :=
   | some d => if d ∈ s.dirs then s else { s with dirs := s.dirs ++ [d] }
 
 /-- `RunTask` after the up-to-date check: prompt, mkdir, commands.  A declined prompt (or no
-terminal) goes through `statusOnError` before the task is reported cancelled: the checksum the
-check has just recorded is removed again (`onError`; a no-op for method timestamp). -/
+terminal) goes through `statusOnError` before the task is reported cancelled (never in a dry run:
+the prompt is skipped): the checksum the
+check has just recorded — or the timestamp marker it has just created/touched — is removed again
+(`onError`). -/
 def runBody (cfg : Cfg) (H : Bytes → Bytes) (pr : Proj) (i : Nat) (t : Task) (dry : Bool) (e : Env)
     (s : State) : State × Obs :=
   if t.prompt && !dry && !e.yes then (onError t s, ⟨.cancelled, false, [], []⟩)
   else if dry then
-    ((if cfg.dryMkdir then mkdirTask t s else s), Obs.quiet)
+    -- no command is executed; a `task:` call whose precondition fails still fails the body, and
+    -- `statusOnError` must leave the state alone (TS4; the tree as found applied `OnError`)
+    let s1 := if cfg.dryMkdir then mkdirTask t s else s
+    if t.cmds.any (fun c => c.blocked s.files) then
+      ((if cfg.dryOnError then onError t s1 else s1), ⟨.failed, false, [], []⟩)
+    else (s1, Obs.quiet)
   else
     let s1 := mkdirTask t s
     let r := cmdLoop e t.cmds 0 s1.files []
